@@ -608,6 +608,26 @@ pub fn apply_act(a: &Act, me: Option<&Node>) {
                 }
             }
         }
+        Act::DowngradeField(k) => {
+            if let Some(me) = me {
+                let d = {
+                    let out = me.out.borrow();
+                    if out.is_empty() {
+                        None
+                    } else {
+                        let kk = idx(out.len(), k);
+                        Some((Rc::downgrade(&out[kk]), Rc::as_ptr(&out[kk]) as usize))
+                    }
+                };
+                if let Some((wk, p)) = d {
+                    with(|w| {
+                        let id = w.by_ptr.get(&p).copied().unwrap_or(usize::MAX);
+                        w.wroots.push(wk);
+                        w.wroot_ids.push(id);
+                    });
+                }
+            }
+        }
         Act::CloneField(k) => {
             if let Some(me) = me {
                 let c = {
@@ -1096,6 +1116,10 @@ fn run_ops(ops: &[(String, Op)], cleanup: bool, out: &mut String, boxes0: isize,
             Op::Act(Act::Drop(r)) if !w.roots.is_empty() && w.contract_ok && !w.any_panic => {
                 let i = r % w.roots.len();
                 lower_bound(w, w.root_ids[i])
+            }
+            Op::Act(Act::DecStrong(r)) if !w.raws.is_empty() && w.contract_ok && !w.any_panic => {
+                let i = r % w.raws.len();
+                lower_bound(w, w.raw_ids[i])
             }
             _ => (vec![], false),
         });
